@@ -29,6 +29,9 @@ EXPLANATION = (
     'R4 the routing table of extend_preserving_lflags: exactly the -l/-L arguments outside always_dedup_args take the direct route. '
     'R5 a method that selects `X = self.copy() if flag else self` (to_native) applies every change through X, none to self by name; '
     'R6 __add__/__radd__ build a fresh object from the left operand and add the right one with += (no raw splice, operand order kept). '
+    'objects derived from self (copy, +) are built with type(self), never a literal family class that has subclasses; '
+    'R7 every value stored in X._container is a list created for the object (copy/display/locally built), on every path; '
+    'R2 also strips hand-written memoisation of the classifiers and requires the cache key to contain the class. '
     'Does NOT decide the equivalence of lazy and eager meaning over operation sequences (a run-time relation), the classification of concrete argument '
     'strings (only the tables, the chain and the regex language are decided, no body is evaluated on sample arguments), the DCompilerArgs tables, nor the callers in the backends. '
     'Out of scope by design (not armed): the constructor and list + CompilerArgs take the initial list verbatim (copy() depends on it), '
@@ -521,6 +524,142 @@ def r6(ctx: RuleCtx) -> None:
             n_ok += 1
         if n_ok == len(paths):
             ctx.ok(f'{fm.rel}: {qn}: fresh object from {"self" if fresh_from == "self" else "the left list"}, then `+=` of the other operand, on all {len(paths)} path(s)')
+    _flavour(ctx, fam)
+
+
+def _flavour(ctx: RuleCtx, fam: lazy.Family) -> None:
+    """R6, second clause: an object derived from `self` (copy, +) keeps the flavour of self - it is built with
+    type(self) / self.__class__ / cls, never with the literal name of a class that has subclasses in the family."""
+    n_dyn = 0
+    for m, c in fam.members:
+        subclasses = [c2.name for m2, c2 in fam.members if c2 is not c and any(x[1] is c for x in fam.mro(fam.cls_key(m2, c2))[1:])]
+        for st in c.body:
+            if not isinstance(st, (ast.FunctionDef, ast.AsyncFunctionDef)):
+                continue
+            params = [a.arg for a in st.args.posonlyargs + st.args.args]
+            if params[:1] != ['self'] or any(attr_chain(d) in ('staticmethod', 'classmethod') for d in st.decorator_list):
+                continue
+            qn = f'{c.name}.{st.name}'
+            # locals bound to the dynamic class: k = type(self) / self.__class__
+            dyn = {'cls'}
+            for n in walk_no_nested(st, include_root=False):
+                if isinstance(n, ast.Assign) and len(n.targets) == 1 and isinstance(n.targets[0], ast.Name) and norm(n.value) in ('type(self)', 'self.__class__'):
+                    dyn.add(n.targets[0].id)
+            for n in walk_no_nested(st, include_root=False):
+                if not isinstance(n, ast.Call):
+                    continue
+                f = n.func
+                if norm(f) in ('type(self)', 'self.__class__') or (isinstance(f, ast.Name) and f.id in dyn and f.id != 'cls'):
+                    n_dyn += 1
+                    continue
+                name = attr_chain(f)
+                if name is None or name.split('.')[0] in ('self', 'cls'):
+                    continue
+                ck = fam.resolve_member(m, name)
+                if ck is None:
+                    continue
+                lit = fam.member(ck)[1]
+                lit_subs = [c2.name for m2, c2 in fam.members if c2 is not lit and any(x[1] is lit for x in fam.mro(fam.cls_key(m2, c2))[1:])]
+                uses_self = any(attr_chain(x) == 'self' or (attr_chain(x) or '').startswith('self.') for a in list(n.args) + [k.value for k in n.keywords] for x in ast.walk(a))
+                if lit_subs and uses_self:
+                    ctx.violation(m, qn, n, f'{qn} builds `{short(n, 70)}` from self with the literal class {lit.name}; for a {"/".join(lit_subs)} the result is a plain '
+                                  f'{lit.name} with other prepend/dedup tables: later additions to the copy are no longer prepended, overridden or de-duplicated', n)
+        del subclasses
+    if n_dyn:
+        ctx.ok(f'objects derived from self are built with the dynamic class (type(self)/self.__class__) at {n_dyn} site(s); no literal family class with subclasses is instantiated from self')
+    else:
+        raise Undecided('no constructor call through type(self)/self.__class__ found in the family; cannot read how copies are built')
+
+
+# ---------------------------------------------------------------------------------------------------------------
+# R7: the flushed list is owned by the object: whatever is stored in X._container is a list created for it (a copy, a display,
+#     a list built locally), never the caller's own list - otherwise in-place merges leak into other argument lists
+# ---------------------------------------------------------------------------------------------------------------
+FRESH_CALLS = {'list', 'sorted', 'collections.deque', 'deque', 'copy.copy', 'copy.deepcopy'}
+
+
+def r7(ctx: RuleCtx) -> None:
+    fam = family(ctx.repo)
+    n_store = 0
+    for m, c in fam.members:
+        for st0 in c.body:
+            if not isinstance(st0, (ast.FunctionDef, ast.AsyncFunctionDef)):
+                continue
+            if not any(isinstance(n, ast.Attribute) and n.attr == lazy.STORE and isinstance(n.ctx, ast.Store) for n in walk_no_nested(st0, include_root=False)):
+                continue
+            qn = f'{c.name}.{st0.name}'
+            fn = tabs._inline(m, c.name, st0)
+            params = {a.arg for a in fn.args.posonlyargs + fn.args.args + fn.args.kwonlyargs}
+            paths = enumerate_paths(fn.body, unroll=1)
+            verdicts: T.Dict[str, T.Tuple[str, ast.AST, ast.AST, str]] = {}
+            for p in paths:
+                env: T.Dict[str, str] = {x: 'caller' for x in params}       # name -> fresh | caller | unknown
+
+                def kind(e: ast.AST) -> str:
+                    if isinstance(e, (ast.List, ast.ListComp)):
+                        return 'fresh'
+                    if isinstance(e, ast.BinOp) and isinstance(e.op, ast.Add):
+                        return 'fresh'
+                    if isinstance(e, ast.Call):
+                        if attr_chain(e.func) in FRESH_CALLS:
+                            return 'fresh'
+                        if isinstance(e.func, ast.Attribute) and e.func.attr == 'copy' and not e.args:
+                            return 'fresh'
+                        return 'unknown'
+                    if isinstance(e, ast.Subscript) and isinstance(e.slice, ast.Slice):
+                        return 'fresh'
+                    if isinstance(e, ast.IfExp):
+                        ks = {kind(e.body), kind(e.orelse)}
+                        return 'caller' if 'caller' in ks else 'unknown' if 'unknown' in ks else 'fresh'
+                    if isinstance(e, ast.Name):
+                        return env.get(e.id, 'unknown')
+                    if isinstance(e, ast.Attribute) and e.attr == lazy.STORE:
+                        return 'caller'          # another object's own list
+                    return 'unknown'
+                for ev in p.events:
+                    e = ev.node
+                    if ev.kind == 'iter' and e is not None:
+                        for x in ast.walk(e.target):
+                            if isinstance(x, ast.Name):
+                                env[x.id] = 'unknown'
+                    if ev.kind != 'stmt' or e is None:
+                        continue
+                    tg: T.List[ast.AST] = []
+                    val: T.Optional[ast.AST] = None
+                    if isinstance(e, ast.Assign):
+                        tg, val = list(e.targets), e.value
+                    elif isinstance(e, ast.AnnAssign) and e.value is not None:
+                        tg, val = [e.target], e.value
+                    if val is None:
+                        continue
+                    pairs: T.List[T.Tuple[ast.AST, ast.AST]] = []
+                    for t in tg:
+                        if isinstance(t, (ast.Tuple, ast.List)) and isinstance(val, (ast.Tuple, ast.List)) and len(t.elts) == len(val.elts):
+                            pairs += list(zip(t.elts, val.elts))
+                        else:
+                            pairs.append((t, val))
+                    kinds = [(t, v, kind(v)) for t, v in pairs]
+                    for t, v, k in kinds:
+                        if isinstance(t, ast.Name):
+                            env[t.id] = k
+                        elif isinstance(t, ast.Attribute) and t.attr == lazy.STORE and attr_chain(t.value) is not None:
+                            key = norm(e)
+                            if k == 'unknown':
+                                raise Undecided(f'{qn}: cannot tell whether `{short(v, 60)}` stored in {norm(t)} is a list created for this object')
+                            prev = verdicts.get(key)
+                            if prev is None or (k == 'caller' and prev[0] != 'caller'):
+                                verdicts[key] = (k, t, e, p.describe()[:120])
+            for key, (k, t, e, where) in verdicts.items():
+                n_store += 1
+                if k == 'caller':
+                    ctx.violation(m, qn, t, f'`{short(e, 80)}` stores a list that belongs to the caller (or to another argument list) in {norm(t)} on the path '
+                                  f'[{where}]: in-place merges (flush fast path, insert, extend_direct) then change the caller\'s list and every '
+                                  'other argument list built from it', e)
+                else:
+                    ctx.ok(f'{m.rel}: {qn}: `{short(e, 70)}` stores a list created for the object on all paths')
+    if n_store == 0:
+        raise Undecided('no assignment to _container found in the family')
+    ctx.floor('assignments to _container', n_store, 1)
 
 
 RULES = [
@@ -529,5 +668,6 @@ RULES = [
     Rule('C13.R3', 'merge polarity of flush_pre_post / __iadd__', tabs.r3),
     Rule('C13.R4', 'extend_preserving_lflags: only -l/-L outside always_dedup_args bypass de-duplication', tabs.r4),
     Rule('C13.R5', 'copy isolation: a method working on self-or-copy never changes self by name', r5),
-    Rule('C13.R6', '+ and reflected + are defined through += on a fresh object', r6),
+    Rule('C13.R6', '+ and reflected + are defined through += on a fresh object of the same flavour', r6),
+    Rule('C13.R7', 'the flushed list is owned: _container is never the caller\'s list', r7),
 ]
